@@ -28,6 +28,7 @@ type mutantResult struct {
 	Expect   []string `json:"expect_rules"`
 	FiredNew []string `json:"new_findings,omitempty"`
 	Note     string   `json:"note,omitempty"`
+	Benign   bool     `json:"benign_variant,omitempty"`
 }
 
 type seededMeta struct {
@@ -116,6 +117,7 @@ func runSelfTest(r *core.Report, repo, verif string) {
 	type job struct {
 		name, patch string
 		expect      []string
+		benign      bool // behaviour-preserving refactor: must produce no new finding
 	}
 	var jobs []job
 	dir := filepath.Join(verif, "mutants", r.Property)
@@ -124,7 +126,14 @@ func runSelfTest(r *core.Report, repo, verif string) {
 		if strings.HasSuffix(e.Name(), ".diff") {
 			p := filepath.Join(dir, e.Name())
 			exp, _ := parseMutantHeader(p)
-			jobs = append(jobs, job{"mutants/" + r.Property + "/" + e.Name(), p, exp})
+			jobs = append(jobs, job{"mutants/" + r.Property + "/" + e.Name(), p, exp, false})
+		}
+	}
+	bdir := filepath.Join(verif, "benign", r.Property)
+	bents, _ := os.ReadDir(bdir)
+	for _, e := range bents {
+		if strings.HasSuffix(e.Name(), ".diff") {
+			jobs = append(jobs, job{"benign/" + r.Property + "/" + e.Name(), filepath.Join(bdir, e.Name()), nil, true})
 		}
 	}
 	sd, _ := os.ReadDir(filepath.Join(verif, "seeded"))
@@ -152,7 +161,7 @@ func runSelfTest(r *core.Report, repo, verif string) {
 		if len(exp) == 0 {
 			continue
 		}
-		jobs = append(jobs, job{"seeded/" + e.Name(), filepath.Join(verif, "seeded", e.Name(), "patch.diff"), exp})
+		jobs = append(jobs, job{"seeded/" + e.Name(), filepath.Join(verif, "seeded", e.Name(), "patch.diff"), exp, false})
 	}
 	if len(jobs) == 0 {
 		r.Extra["selftest"] = "no mutants registered for this property"
@@ -172,7 +181,7 @@ func runSelfTest(r *core.Report, repo, verif string) {
 			defer wg.Done()
 			sem <- struct{}{}
 			defer func() { <-sem }()
-			res := mutantResult{Name: j.name, Expect: j.expect}
+			res := mutantResult{Name: j.name, Expect: j.expect, Benign: j.benign}
 			defer func() { results[i] = res }()
 			tmp, err := os.MkdirTemp("", "yfmut")
 			if err != nil {
@@ -234,8 +243,20 @@ func runSelfTest(r *core.Report, repo, verif string) {
 		}(i, j)
 	}
 	wg.Wait()
-	killed, applied := 0, 0
+	killed, applied, nMut, nBenign, quiet := 0, 0, 0, 0, 0
 	for _, m := range results {
+		if m.Benign {
+			nBenign++
+			if m.Applied && len(m.FiredNew) == 0 {
+				quiet++
+			} else if m.Applied {
+				fmt.Printf("SELFTEST-FALSE-ALARM %s (behaviour-preserving variant; new findings %v)\n", m.Name, m.FiredNew)
+			} else {
+				fmt.Printf("SELFTEST-NOT-APPLICABLE %s %s\n", m.Name, m.Note)
+			}
+			continue
+		}
+		nMut++
 		if m.Applied {
 			applied++
 		}
@@ -246,9 +267,11 @@ func runSelfTest(r *core.Report, repo, verif string) {
 			fmt.Printf("SELFTEST-SURVIVOR %s (expected %v; new findings %v) %s\n", m.Name, m.Expect, m.FiredNew, m.Note)
 		}
 	}
-	fmt.Printf("selftest: %d mutants, %d applied, %d killed\n", len(results), applied, killed)
+	fmt.Printf("selftest: %d mutants, %d applied, %d killed; %d behaviour-preserving variants, %d quiet\n", nMut, applied, killed, nBenign, quiet)
+	r.Extra["selftest_benign"] = nBenign
+	r.Extra["selftest_benign_quiet"] = quiet
 	r.Extra["selftest"] = results
-	r.Extra["selftest_mutants"] = len(results)
+	r.Extra["selftest_mutants"] = nMut
 	r.Extra["selftest_applied"] = applied
 	r.Extra["selftest_killed"] = killed
 }
